@@ -721,4 +721,189 @@ theorem Sizes_step {P : Params} {A : Assembler} {script : List Item} {s s' : Sta
     · injection hs with hs; subst hs; exact ⟨hl, ht, hc, hr, hi, hsn⟩
     · cases hs
 
+/-! ### Lifting to reachable states -/
+
+theorem reach_wf {P : Params} {A : Assembler} {script : List Item} {s : State}
+    (h : Reach P A script s) : PoolOK P s ∧ Sizes P s := by
+  induction h with
+  | init => exact ⟨PoolOK_init P, Sizes_init P⟩
+  | step _ hs ih => exact ⟨PoolOK_step ih.1 hs, Sizes_step ih.1 ih.2 hs⟩
+
+theorem reach_of_run {P : Params} {A : Assembler} {script : List Item} {s0 s : State} {as : List Step}
+    (h0 : Reach P A script s0) (h : run P A script s0 as = some s) : Reach P A script s := by
+  induction as generalizing s0 with
+  | nil => simp only [run] at h; injection h with h; subst h; exact h0
+  | cons a as ih =>
+    simp only [run] at h
+    split at h
+    · next s1 hs1 => exact ih (Reach.step h0 hs1) h
+    · cases h
+
+/-- Conversely every reachable state is the end of a schedule. -/
+theorem run_of_reach {P : Params} {A : Assembler} {script : List Item} {s : State}
+    (h : Reach P A script s) : ∃ as, run P A script (init P) as = some s := by
+  induction h with
+  | init => exact ⟨[], rfl⟩
+  | @step s1 s2 a _ hs ih =>
+    obtain ⟨as, has⟩ := ih
+    refine ⟨as ++ [a], ?_⟩
+    have : ∀ (s0 : State) (as : List Step), run P A script s0 as = some s1 →
+        run P A script s0 (as ++ [a]) = some s2 := by
+      intro s0 as
+      induction as generalizing s0 with
+      | nil => intro h; simp only [run] at h; injection h with h; subst h; simp [run, hs]
+      | cons b bs ihb =>
+        intro h
+        simp only [run, List.cons_append] at h ⊢
+        split at h
+        · next s3 h3 => exact ihb _ h
+        · cases h
+    exact this _ _ has
+
+/-! ### Buffer ownership -/
+
+def optId : Option Buf → List Nat
+  | some b => [b.id]
+  | none => []
+
+def inHand : PC → List Nat
+  | .send (.ok m) => [m.buf.id]
+  | _ => []
+
+/-- Buffers owned by the loop: current buffer (also the target of every in-flight transfer),
+the buffer kept for reuse, the payload about to be sent. -/
+def loopOwned (s : State) : List Nat := optId s.cur ++ optId s.reuse ++ inHand s.pc
+def chanOwned (s : State) : List Nat := s.chan.filterMap msgBufId
+def rxOwned (s : State) : List Nat := s.held.map (·.buf.id)
+def backOwned (s : State) : List Nat := s.back.map (·.buf.id)
+
+/-- Every ownership claim on a buffer identity, owner by owner. -/
+def owned (s : State) : List Nat :=
+  loopOwned s ++ chanOwned s ++ rxOwned s ++ backOwned s ++ s.freed
+
+/-- Each allocated identity has exactly one owner, unallocated ones none. -/
+def Own (s : State) : Prop := ∀ i, (owned s).count i = if i < s.nextBuf then 1 else 0
+
+theorem Own_init (P : Params) : Own (init P) := by
+  intro i; simp [owned, loopOwned, chanOwned, rxOwned, backOwned, optId, inHand, init]
+
+theorem takeHeld_count {id : Nat} {held rest : List OkMsg} {m : OkMsg}
+    (h : takeHeld id held = some (m, rest)) (i : Nat) :
+    (held.map (·.buf.id)).count i = ([m.buf.id].count i) + (rest.map (·.buf.id)).count i := by
+  induction held generalizing rest with
+  | nil => simp [takeHeld] at h
+  | cons x xs ih =>
+    simp only [takeHeld] at h
+    split at h
+    · injection h with h; injection h with h1 h2; subst h1; subst h2
+      simp [List.count_cons]; omega
+    · split at h
+      · next y r hr =>
+        injection h with h; injection h with h1 h2; subst h1; subst h2
+        have := ih hr
+        simp only [List.map_cons, List.count_cons] at this ⊢
+        omega
+      · cases h
+
+theorem takeHeld_mem {id : Nat} {held rest : List OkMsg} {m : OkMsg}
+    (h : takeHeld id held = some (m, rest)) : m ∈ held ∧ m.buf.id = id := by
+  induction held generalizing rest with
+  | nil => simp [takeHeld] at h
+  | cons x xs ih =>
+    simp only [takeHeld] at h
+    split at h
+    · next hx => injection h with h; injection h with h1 h2; subst h1; exact ⟨by simp, hx⟩
+    · split at h
+      · next y r hr =>
+        injection h with h; injection h with h1 h2; subst h1
+        exact ⟨List.mem_cons_of_mem _ (ih hr).1, (ih hr).2⟩
+      · cases h
+
+private theorem count_optId_none (i : Nat) : (optId none).count i = 0 := rfl
+private theorem count_freeOpt (f : List Nat) (o : Option Buf) (i : Nat) :
+    (freeOpt f o).count i = (optId o).count i + f.count i := by
+  cases o <;> simp [freeOpt, optId, List.count_cons]; omega
+
+/-- Tactic closing the typical goal: ownership moved between components. -/
+macro "own_tac" h:ident : tactic => `(tactic| (
+  intro i
+  have hi := $h i
+  simp only [owned, loopOwned, chanOwned, rxOwned, backOwned, optId, inHand, List.count_append,
+    List.count_cons, List.count_nil, List.filterMap_append, List.filterMap_cons, List.filterMap_nil,
+    List.map_append, List.map_cons, List.map_nil, msgBufId, count_freeOpt, beq_iff_eq] at hi ⊢
+  first | exact hi | omega | (rw [← hi]; omega)))
+
+theorem Own_step {P : Params} {A : Assembler} {script : List Item} {s s' : State} {a : Step}
+    (hp : PoolOK P s) (h : Own s) (hs : step P A script s a = some s') : Own s' := by
+  cases a <;> simp only [step] at hs
+  case checkCancel =>
+    unfold stepCheckCancel at hs
+    split at hs
+    · next hpc =>
+      split at hs <;> (injection hs with hs; subst hs) <;>
+        (intro i; have hi := h i; simpa [owned, loopOwned, chanOwned, rxOwned, backOwned, inHand, hpc] using hi)
+    · cases hs
+  case obtainReuse =>
+    unfold stepObtainReuse at hs
+    split at hs
+    · next hpc =>
+      simp only [PoolOK, hpc] at hp
+      split at hs
+      · next b hb =>
+        injection hs with hs; subst hs
+        intro i; have hi := h i
+        simpa [owned, loopOwned, chanOwned, rxOwned, backOwned, inHand, optId, hpc, hb, hp.2] using hi
+      · cases hs
+    · cases hs
+  case obtainBack =>
+    unfold stepObtainBack at hs
+    split at hs
+    · next hc =>
+      simp only [PoolOK, hc.1] at hp
+      split at hs
+      · next m rest hb =>
+        injection hs with hs; subst hs
+        intro i; have hi := h i
+        simp only [owned, loopOwned, chanOwned, rxOwned, backOwned, inHand, optId, hc.1, hc.2, hb, hp.2,
+          List.count_append, List.count_cons, List.count_nil, List.map_cons] at hi ⊢
+        omega
+      · cases hs
+    · cases hs
+  case obtainAlloc =>
+    unfold stepObtainAlloc at hs
+    split at hs
+    · next hc =>
+      simp only [PoolOK, hc.1] at hp
+      injection hs with hs; subst hs
+      intro i; have hi := h i
+      simp only [owned, loopOwned, chanOwned, rxOwned, backOwned, inHand, optId, hc.1, hc.2.1, hp.2,
+        List.count_append, List.count_cons, List.count_nil, beq_iff_eq] at hi ⊢
+      by_cases h1 : i < s.nextBuf
+      · rw [if_pos h1] at hi; rw [if_pos (by omega), if_neg (by omega)]; omega
+      · rw [if_neg h1] at hi
+        by_cases h2 : s.nextBuf = i
+        · rw [if_pos h2, if_pos (by omega)]; omega
+        · rw [if_neg h2, if_neg (by omega)]; omega
+    · cases hs
+  case submitOk =>
+    unfold stepSubmitOk at hs
+    split at hs
+    · next k hpc =>
+      split at hs
+      · split at hs <;> (injection hs with hs; subst hs) <;>
+          (intro i; have hi := h i; simpa [owned, loopOwned, chanOwned, rxOwned, backOwned, inHand, hpc] using hi)
+      · cases hs
+    · cases hs
+  case submitFail e =>
+    unfold stepSubmitFail at hs
+    split at hs
+    · next k hpc =>
+      simp only [PoolOK, hpc] at hp
+      split at hs
+      · -- `reuse` is empty while a buffer is in use: it was taken at `obtain`
+        sorry
+      · cases hs
+    · cases hs
+  all_goals sorry
+
 end CamVerif.StreamLoop
